@@ -46,24 +46,28 @@ IsSpanTree(c, T) == Cardinality(T) = c.n - 1 /\ ReachIn(T, {1}) = Pos(c)
 Anc(T, r, x, y) == x = r \/ x = y \/ y \notin ReachIn({e \in T : x \notin e}, {r})
 DfsTrees(c) == {T \in SUBSET c.E : IsSpanTree(c, T) /\ \E r \in Pos(c) : \A e \in c.E \ T : \E x, y \in e : x # y /\ Anc(T, r, x, y)}
 
-\* tabulated once (constant level): the presentations of every force field, the declared result of every case
-PresTab == [i \in DOMAIN FFs |-> Presentations(FFs[i])]
-PResTab == [c \in Cases |-> PResult(c)]
+\* tabulated once, as explicit tuples of explicit sets (constant level): the presentations of every force field (baseOnly - not a
+\* deviation - keeps only the base presentation, for sensitivity runs that are not about definition order) and what each leaves behind
+RECURSIVE PresUpTo(_)
+PresUpTo(k) == IF k = 0 THEN <<>> ELSE Append(PresUpTo(k - 1), TLCEval(IF Dev.baseOnly THEN {BasePresentation(FFs[k])} ELSE Presentations(FFs[k])))
+PresTab == PresUpTo(Len(FFs))
+RECURSIVE LoadUpTo(_)
+LoadUpTo(k) == IF k = 0 THEN <<>> ELSE Append(LoadUpTo(k - 1), TLCEval({[L |-> Loaded(FFs[k], fs, Dev.itpGlobal), Li |-> Loaded(FFs[k], fs, FALSE)] : fs \in PresTab[k]}))
+LoadTab == LoadUpTo(Len(FFs))
 
 S0 == [pc |-> "load", L |-> L0, bx |-> <<>>, frags |-> <<>>, fid |-> <<>>, molN |-> 0, ord |-> <<>>, k |-> 1,
        M |-> [atoms |-> <<>>, gattr |-> <<>>, ints |-> {}, edges |-> {}, extra |-> <<>>, rm |-> {}],
-       corr |-> <<>>, added |-> {}, li |-> 1, todo |-> {}, orient |-> <<>>, err |-> "", fired |-> {}, out |-> ErrOut("")]
-Init == case \in Cases /\ s = S0
+       corr |-> <<>>, added |-> {}, li |-> 1, todo |-> {}, orient |-> <<>>, err |-> "", fired |-> {}, out |-> ErrOut(""), exp |-> ErrOut("")]
+\* exp: the declared result of the case, evaluated once and carried along
+Init == case \in Cases /\ s = [S0 EXCEPT !.exp = PResult(case)]
 
 Fail(e) == s' = [s EXCEPT !.pc = "done", !.err = e, !.out = ErrOut(e)]
 
 (* ---- load_ff_library *)
 Load == /\ s.pc = "load"
-        /\ \E fs \in PresTab[case.ff] :
-             LET L == Loaded(FFof(case), fs, Dev.itpGlobal)
-                 Li == Loaded(FFof(case), fs, FALSE)
-             IN s' = [s EXCEPT !.pc = "match", !.L = L, !.bx = FreshBx(FFof(case), L),
-                               !.fired = IF L # Li THEN @ \cup {"itpGlobal"} ELSE @]
+        /\ \E ld \in LoadTab[case.ff] :
+             s' = [s EXCEPT !.pc = "match", !.L = ld.L, !.bx = FreshBx(FFof(case), ld.L),
+                            !.fired = IF ld.L # ld.Li THEN @ \cup {"itpGlobal"} ELSE @]
         /\ UNCHANGED case
 
 (* ---- match_nodes_to_blocks *)
@@ -205,14 +209,14 @@ Next == Load \/ MatchNodes \/ Tag \/ AddBlock \/ BeginLink \/ TryAny \/ EndLink 
 Spec == Init /\ [][Next]_vars
 
 (* ---- I-layer |= P-layer: confluence *)
-Confluent == s.pc = "done" => s.out = PResTab[case]
+Confluent == s.pc = "done" => s.out = s.exp
 \* the base molecule before links is the declared concatenation of block copies (where MapToMolecule did not fail)
 BaseAsDeclared == (s.pc = "begin" /\ s.li = 1) =>
                     LET B == PBase(case, s.L, s.bx) IN s.M.atoms = B.atoms /\ s.M.gattr = B.gattr /\ s.M.ints = B.ints /\ s.M.edges = B.edges
 \* the cases stay inside the stated domain
-DomainInv == s.pc = "load" => InDomain(case)
+DomainInv == s.pc = "load" => (InDomain(case) /\ s.exp = PResult(case))
 \* a run only fails where the declared result is that failure
-NoSpuriousFailure == (s.pc = "done" /\ s.err # "") => PResTab[case].err = s.err
+NoSpuriousFailure == (s.pc = "done" /\ s.err # "") => s.exp.err = s.err
 \* without a known deviation switched on nothing "fires"
 FiredOnlyKnown == s.fired \subseteq {f \in Known : Dev[f]}
 =============================================================================
